@@ -118,6 +118,60 @@ def gen_burst_case(rng):
     return lines
 
 
+def inj_systematic():
+    """every system-call boundary (k = 1..6 covers the 5 calls of one critical section; a restart on another
+    signum has 10) x before/after x {first watcher, second watcher, one-shot, restart, stop of one of two, stop of
+    the last, close} with the watched signal, on one and two loops"""
+    for k in range(1, 12):
+        for wh in "ba":
+            a = f"at {k} {wh}"
+            if k <= 6:
+                yield ["init 2 0 1 0", "start h0 10", f"{a} 10 start h1 10", "run 0", "run 1", f"{a} 10 oneshot h2 10 1", "run 0", "run 1",
+                       f"{a} 10 stop h1", "run 0", "run 1", f"{a} 10 stop h0", "run 0", f"{a} 10 start h0 10", "run 0",
+                       f"{a} 10 close h0", "run 0", f"{a} 10 oneshot h1 10", "run 1", "run 0", "raise 10", "run 1", "run 0",
+                       f"{a} 12 oneshot h1 12", f"{a} 12 close h1", "run 1", "close h2", "run 0"]
+                yield ["init 1 0 0", "oneshot h0 10", f"{a} 10 oneshot h1 10", f"{a} 10 start h1 10", "run 0", f"{a} 10 stop h1", "run 0",
+                       "raise 10", "run 0", "start h0 12", f"{a} 12 stop h0", "run 0", f"{a} 10 close h1", f"{a} 10 close h0", "run 0", "run 0"]
+            yield ["init 2 0 1", "start h0 10", "start h1 12", f"{a} 10 start h0 12", "run 0", "run 1", f"{a} 12 oneshot h0 10 1", "run 0", "run 1",
+                   f"{a} 10 start h1 10", "run 0", "run 1", f"{a} 10 start h1 9", "run 0", "run 1", "raise 10", "run 0", "run 1",
+                   "close h0", "close h1", "run 0", "run 1"]
+
+
+def gen_inj_case(rng):
+    """random programs (no scripted callbacks) in which about half of the API calls have a signal raised inside"""
+    nl = rng.range(1, 3)
+    nh = rng.range(1, 5)
+    lo = [rng.below(nl) for _ in range(nh)]
+    lines = ["init %d %s" % (nl, " ".join(map(str, lo)))]
+    sigs = SIGS[:rng.range(1, 3)]
+    st = {i: 0 for i in range(nh)}
+    for _ in range(rng.range(6, 30)):
+        r = rng.below(20); h = rng.below(nh); sig = rng.choice(sigs)
+        if r < 12:
+            q = rng.below(12)
+            if q < 4: op = f"start h{h} {sig} {rng.below(2)}"; new = sig
+            elif q < 7: op = f"oneshot h{h} {sig} {rng.below(2)}"; new = sig
+            elif q < 10: op = f"stop h{h}"; new = 0
+            elif q < 11: op = f"close h{h}"; new = 0
+            else: op = f"start h{h} {rng.choice([0, 9])}"; new = 0
+            if rng.chance(3, 5):
+                live = [x for x in st.values() if x] + ([new] if new else [])
+                isig = rng.choice(live) if live and rng.chance(4, 5) else rng.choice(sigs)
+                lines.append(f"at {rng.range(1, 11 if st[h] and new and new != st[h] else 6)} {rng.choice('ba')} {isig} {op}")
+            else:
+                lines.append(op)
+            st[h] = new
+        elif r < 15:
+            live = [x for x in st.values() if x]
+            lines.append(f"raise {rng.choice(live) if live else sig}")
+        else:
+            lines.append(f"run {rng.below(nl)}")
+    for L in range(nl): lines.append(f"run {L}")
+    for h in range(nh): lines.append(f"close h{h}")
+    for L in range(nl): lines += [f"run {L}", f"run {L}"]
+    return lines
+
+
 BURST_WITNESSES = [
     ["init 1 0", "start h0 10", "burst 10 1500", "run 0", "burst 10 40", "run 0", "close h0", "run 0"],
     ["init 1 0", "start h0 10", "burst 10 4200", "run 0", "burst 10 100", "close h0", "run 0", "run 0"],      # across the capacity
@@ -219,19 +273,27 @@ class Mon:
             w = watchers(sig)
             if not w: reset_fired[sig] = False
             elif was_reg and all(H[j]["os"] for j in w): reset_fired[sig] = False   # re-installed with RESETHAND
+        hook = [None]
+        def sec():
+            """one critical section of the running API call (block signals + take the signal lock ... release +
+            restore) is complete: its effect on the set of watchers / the disposition is visible from here on"""
+            if hook[0]: hook[0]()
         def spec_start(h, sig, os, cbid):
             """returns expected return code"""
             x = H[h]
             if sig == 0: return -22
             if x["sig"] == sig:                        # documented: only the callback changes
                 x["cb"] = cbid; return 0
-            spec_stop(h)
-            if sig not in SIGS: return -22             # SIGKILL: handle is left stopped
+            if x["sig"]:
+                spec_stop(h); sec()
+            if sig not in SIGS:                        # SIGKILL: handle is left stopped
+                sec(); return -22
             w = watchers(sig)
             if not w or (not os and all(H[j]["os"] for j in w)): reset_fired[sig] = False
             x["sig"] = sig; x["os"] = os; x["inc"] += 1; x["cb"] = cbid
             x["pending_at_restart"] = any(e["h"] == h and not e["done"] for e in exp[x["loop"]][pos.get(x["loop"], 0):])
             x["own_cb_restart"] = False
+            sec()
             return 0
         def spec_op(w, in_cb_of=None, was_os=False):
             op = w[0]; h = int(w[1])
@@ -247,9 +309,13 @@ class Mon:
                     x["own_cb_restart"] = True
                 return rc
             if op == "stop":
-                spec_stop(h); return 0
+                had = x["sig"]; spec_stop(h)
+                if had: sec()
+                return 0
             if op == "close":
-                spec_stop(h); x["closing"] = True; return 0
+                had = x["sig"]; spec_stop(h); x["closing"] = True
+                if had: sec()
+                return 0
         def raise_sig(sig, line, obs_h_before):
             if line == "raise skipped-default":
                 if exp_disp(sig) != "dfl":
@@ -457,6 +523,35 @@ class Mon:
             elif w[0] == "raise":
                 raise_sig(int(w[1]), next(it), None)
                 check_obs(cmd)
+            elif w[0] == "at":
+                # a signal raised inside the API call.  The harness says what the kernel did with it and after how many
+                # completed critical sections of the call (0 = before the call took effect, all = after it did; a
+                # restart on another signum is stop + start = two sections): judged as a delivery at that point
+                isig = int(w[3]); inj = next(it).split()
+                if inj[0] != "inj" or inj[1] not in ("none", "raised", "skipped-default", "dropped-default", "pending"):
+                    self.v("protocol", f"unexpected `{' '.join(inj)}`"); continue
+                what = inj[1]; at_sec = int(inj[2]) if len(inj) > 2 else -1
+                nsec = [0]; fired = [False]
+                def point():
+                    if fired[0] or nsec[0] != at_sec: return
+                    fired[0] = True
+                    if what == "raised": deliver(isig)
+                    elif exp_disp(isig) != "dfl":
+                        self.v("disposition", f"signal {isig} raised inside `{' '.join(w[4:])}` met the default disposition though {watchers(isig)} watch it")
+                def step():
+                    nsec[0] += 1; point()
+                point()
+                hook[0] = step
+                e = spec_op([w[4], w[5][1:]] + w[6:])
+                hook[0] = None
+                if what == "pending":
+                    self.v("signal-left-blocked", f"signal {isig} raised inside `{' '.join(w[4:])}` is still blocked when the call returns")
+                elif what != "none" and not fired[0]:
+                    self.v("protocol", f"`{cmd}`: delivery reported after {at_sec} sections, the call has {nsec[0]}")
+                r = next(it)
+                want = "ret skip" if e is None else f"ret {e}"
+                if r != want: self.v("retcode", f"`{cmd}` answered `{r}`, expected `{want}`")
+                check_obs(cmd)
             elif w[0] == "nestraise":
                 o = next(it); a, b = int(w[1]), int(w[2])
                 if o == "raise skipped-default":
@@ -561,6 +656,21 @@ def shrink(ctx, exe, c, sig):
     return cur
 
 
+def shrink_hang(ctx, exe, c, n_done):
+    """the program up to the call that hung; then drop earlier lines while it still hangs (each hanging run costs
+    the watchdog time, so under a time budget)"""
+    body = [l for l in c if not l.startswith("script")]
+    cur = body[:n_done + 1]
+    t0 = time.time()
+    i = 1
+    while i < len(cur) - 1 and time.time() - t0 < 25:
+        cand = cur[:i] + cur[i + 1:]
+        rc, out, err = run_impl(ctx, exe, cand)
+        if rc in (-9, -14, -999) and sum(1 for l in out if l.startswith("obs handles")) == len(cand) - 1: cur = cand
+        else: i += 1
+    return cur
+
+
 def run_case(ctx, exe, c, model=True, stats=None):
     """returns False when an unknown violation / broken correspondence was recorded"""
     rc, il, err = run_impl(ctx, exe, c)
@@ -573,6 +683,15 @@ def run_case(ctx, exe, c, model=True, stats=None):
         kind = "crash-asan" if "AddressSanitizer" in err else "crash"
         if rc in (-14, -999) and any(l.startswith("nestraise") for l in c):
             kind = "signal-handler-deadlock"     # the watchdog fired inside a nested delivery
+        if rc in (-9, -14, -999) and any(l.startswith("at ") for l in c):
+            # the watchdog fired inside an API call with a signal raised in it: the call never returned
+            n_done = sum(1 for l in il if l.startswith("obs handles"))
+            hung = [l for l in c if not l.startswith("script")][n_done:n_done + 1]
+            if hung and hung[0].startswith("at "):
+                ctx.violation("signal-inside-api-call-deadlock",
+                              f"C13: `{hung[0]}`: a watched signal delivered to the thread inside the call (at that system-call "
+                              f"boundary) and the call never returned (harness exited {rc})", {"ops": shrink_hang(ctx, exe, c, n_done)})
+                return False
         ctx.violation(kind, f"signal harness exited {rc}: {err[-900:]}", {"ops": shrink(ctx, exe, c, kind)})
         return False
     viol = monitor(c, il)
@@ -607,6 +726,10 @@ def run_case(ctx, exe, c, model=True, stats=None):
         stats["_multi"] = stats.get("_multi", 0) + (nloops > 1)
         stats["_reset"] = stats.get("_reset", 0) + any("uv/reset" in l for l in il)
         stats["_requeue"] = stats.get("_requeue", 0) + any(l.startswith("runraise") for l in c)
+        for l in il:
+            if l.startswith("inj "):
+                key = "_inj:" + " ".join(l.split()[1:])
+                stats[key] = stats.get(key, 0) + 1
     return True
 
 
@@ -643,7 +766,10 @@ def run(ctx):
                     "clang/ASan (handles are freed in close_cb: a message outliving its handle is a heap-use-after-free)"]
     ctx.assumptions += ["fewer undelivered signals per loop than the self-pipe holds (property text)",
                         "loops are run from one thread in a scripted order (thread identity of callbacks = the loop being run)"]
-    lean_ok = ctx.require_lean(["UvModel.Props.C13"])
+    ctx.trusted += ["tools/gen_lean.py (clang AST -> Lean for the loop-free kernels signal_compare, signal_start) and UvModel/CSem.lean"]
+    # Tie A: uv__signal_compare / uv__signal_start regenerated from /repo, GenEq/C13 re-proves them = Signal.Key.lt / Signal.sigStart
+    gen_ok = ctx.gen_lean(need=["C13"])
+    lean_ok = ctx.require_lean(["UvModel.GenEq.C13", "UvModel.Props.C13"]) and gen_ok
     exe = ctx.harness("c13_sim", ["harness/c13_sim.c"])
     if exe is None:
         return
@@ -653,7 +779,7 @@ def run(ctx):
         if rp.get("mt"):
             if mexe: run_mt_case(ctx, mexe, rp["ops"], {})
         else:
-            run_case(ctx, exe, rp["ops"])
+            run_case(ctx, exe, rp["ops"], model=not any(l.startswith("at ") for l in rp["ops"]))
         return
     rng = ctx.rng
     stats = {}
@@ -669,6 +795,14 @@ def run(ctx):
         for c in bc:
             if not run_case(ctx, exe, c, stats=stats): ok = False; break
         ctx.notes["burst_cases"] = len(bc)
+    if ok:
+        # a watched signal raised inside uv_signal_start/stop/uv_close at every system-call boundary: monitors only
+        # (masking and the signal lock are below the model's level)
+        ic = list(inj_systematic()) + [gen_inj_case(rng) for _ in range(ctx.scale(60, 3000))]
+        for c in ic:
+            if not run_case(ctx, exe, c, model=False, stats=stats): ok = False; break
+        ctx.notes["signal_inside_api_call_cases"] = len(ic)
+        ctx.notes["signal_inside_api_call_outcomes"] = {k[5:]: v for k, v in stats.items() if k.startswith("_inj:")}
     n_ex = 0
     if ok:
         for c in exhaustive_cases():
